@@ -36,7 +36,7 @@ func Gen(t *rapid.T) *Case {
 	}
 	np := rapid.IntRange(1, 8).Draw(t, "np")
 	for i := 0; i < np; i++ {
-		p := Pub{Persist: rapid.SampledFrom([]string{"ok", "ok", "ok", "reject", "bad", "slow"}).Draw(t, "persist")}
+		p := Pub{Persist: rapid.SampledFrom([]string{"ok", "ok", "ok", "reject", "bad", "slow", "timeout"}).Draw(t, "persist")}
 		switch rapid.IntRange(0, 5).Draw(t, "ctxmode") {
 		case 5:
 			p.Expired = true
